@@ -511,9 +511,9 @@ func (root *Root) resolveField(
 	result map[string]interface{},
 	depth int) (ea []error) {
 
-	if field.ConType == nil {
-		field.ConType = t
-	}
+	// The container can differ from one resolve to the next (members of a
+	// union) so it is set every time and not just on the first resolve.
+	field.ConType = t
 	// Checked on every resolve and not just the first so that resolving an
 	// executable again gives the same result.
 	if ea = field.sortArgs(); 0 < len(ea) {
